@@ -12,10 +12,17 @@ _STUB = ["transport: simulated network on raftconn.RaftNode.ISend / Engine.SendR
          "StorageService: adapter re-stating ts-store storage.Write/WriteDataFunc", "SQL layer (reads are cursor requests as in world S)",
          "etcd-raft election jitter: package-global source re-seeded per case through go:linkname (draw order across nodes is not controlled)"]
 
+import json as _json, os as _os
+# development aid: VERIF_P_OVERLAY='{"engine/x.go": "/abs/path/patched_x.go", ...}' builds world P against
+# patched copies of repo files (used to check that a suggested fix silences a finding); never set by vsim
+_EXTRA = {"engine/immutable/zz_verif_dbg.go": "hooks/immutable_dbg.go"}
+if _os.environ.get("VERIF_P_OVERLAY"):
+    _EXTRA.update(_json.loads(_os.environ["VERIF_P_OVERLAY"]))
+
 WORLDS = {
     "P": {"pkg": "engine", "harness": "engine", "test": "TestVerifWorldP", "cpu": 2, "real": _REAL, "stub": _STUB,
           "harness_files": ["s_*.go", "p_*.go"],
-          "extra_overlay": {"engine/immutable/zz_verif_dbg.go": "hooks/immutable_dbg.go"}},
+          "extra_overlay": _EXTRA},
 }
 
 PROPS = {
